@@ -145,7 +145,9 @@ def scenarios(tier):
 
 def main(tier, replay, seed):
     import paramiko.channel as CH
-    from cfa.driver import run_property
+    from cfa.driver import run_property, replay_file
+    if replay:
+        return replay_file(PROPERTY, scenarios("thorough"), replay)
     C = CH.Channel
     fns = [C.send, C._send, C._wait_for_send_window, C.close, C._close_internal, C._send_eof, C._set_closed, C.shutdown,
            C.shutdown_write, C._handle_close, C._handle_eof, C._window_adjust]
